@@ -1,4 +1,5 @@
 import St4sd.Model.Env
+import St4sd.Model.C17Vars
 /-!
 Witnesses for C17.
 
@@ -43,5 +44,47 @@ theorem old_violates_platform_over_default :
       dget r "A".toList = none ∧
       (∃ d, platEnv pkg "myenv".toList sDefault = .ok d ∧ dget d "A".toList = some "a".toList) :=
   ⟨[("B".toList, "b2".toList)], by decide, by decide, [("A".toList, "a".toList), ("B".toList, "b".toList)], by decide, by decide⟩
+
+/-! ### `%(name)s` references: one interpolation context per environment
+
+`fillEnvsAcc` / `instDocAcc` is `FlowIRConcrete.instance` with `env_variables = global_variables.copy()` hoisted out
+of the loop over the environments (one context that accumulates the entries of every environment processed so
+far).  Package: environment `a_tools` has a variable of its own called `prefix`, environment `b_tools` references
+the *global* variable `prefix`; `a_tools` is processed first. -/
+
+def pkgV : Envs := loadEnvs
+  [("default".toList, [("a_tools".toList, [("prefix".toList, "/opt/a".toList), ("BIN_A".toList, "%(prefix)s/bin".toList)]),
+                       ("b_tools".toList, [("BIN_B".toList, "%(prefix)s/bin".toList)])]),
+   ("cluster".toList, [("b_tools".toList, [("LIB_B".toList, "%(prefix)s/lib".toList)])])]
+def varsV : Vars :=
+  [("default".toList, [("prefix".toList, "/global".toList)]), ("cluster".toList, [("prefix".toList, "/cluster".toList)])]
+/-- the same package without the environment nobody selects -/
+def pkgV' : Envs := loadEnvs
+  [("default".toList, [("b_tools".toList, [("BIN_B".toList, "%(prefix)s/bin".toList)])]),
+   ("cluster".toList, [("b_tools".toList, [("LIB_B".toList, "%(prefix)s/lib".toList)])])]
+
+/-- as coded: `b_tools` gets the global variable of the platform -/
+theorem own_context_resolves_from_globals :
+    envForNodeV sys (instDoc ⟨pkgV, varsV⟩ "cluster".toList (safeOf false)) "cluster".toList []
+      (some "b_tools".toList) false false =
+      .ok [("INSTANCE_DIR".toList, "/i".toList), ("BIN_B".toList, "/cluster/bin".toList),
+           ("LIB_B".toList, "/cluster/lib".toList)] := by decide
+
+/-- with the accumulating context the value of the unselected environment `a_tools` leaks into `b_tools` -/
+theorem accumulating_context_leaks :
+    envForNodeV sys (instDocAcc ⟨pkgV, varsV⟩ "cluster".toList (safeOf false)) "cluster".toList []
+      (some "b_tools".toList) false false =
+      .ok [("INSTANCE_DIR".toList, "/i".toList), ("BIN_B".toList, "/opt/a/bin".toList),
+           ("LIB_B".toList, "/opt/a/lib".toList)] := by decide
+
+/-- … so `Props.C17.task_env_independent_of_other_envs` is false for `instDocAcc`: removing the environment nobody
+selects changes the answer -/
+theorem accumulating_context_depends_on_other_envs :
+    platEnv pkgV "b_tools".toList "cluster".toList = platEnv pkgV' "b_tools".toList "cluster".toList ∧
+    platEnv pkgV "b_tools".toList sDefault = platEnv pkgV' "b_tools".toList sDefault ∧
+    envForNodeV sys (instDocAcc ⟨pkgV, varsV⟩ "cluster".toList (safeOf false)) "cluster".toList []
+      (some "b_tools".toList) false false ≠
+    envForNodeV sys (instDocAcc ⟨pkgV', varsV⟩ "cluster".toList (safeOf false)) "cluster".toList []
+      (some "b_tools".toList) false false := by decide
 
 end St4sd.C17.Witness
